@@ -47,6 +47,13 @@ def gen_case(seed, idx):
     for s in srcs:
         s["cuts"] = gen.gen_cuts(rng, s["rows"], t0, t1, scale, allow_trailing_zero=trailing)
     plugins = gen.gen_graph(rng, srcs, scale)
+    fanout = rng.random() < 0.08
+    if fanout:
+        # one data type with three readers that do not advance in lock-step: two run-level (exhaust) plugins that
+        # swallow the whole run before they emit anything, and a plugin that merges the source with both of them
+        plugins = [{"name": "x1ex", "type": "exhaust", "deps": ["ev"], "field": "v1"},
+                   {"name": "x2ex", "type": "exhaust", "deps": ["ev"], "field": "v2"},
+                   {"name": "toprow", "type": "row", "deps": ["ev", "x1ex", "x2ex"], "c": 2, "field": "v0"}]
     spec = {"sources": srcs, "plugins": plugins}
     out = oracle.whole_run(spec)
     gen.fix_group_windows(spec, out)
@@ -54,11 +61,18 @@ def gen_case(seed, idx):
     cfg = gen.gen_config(rng, nmax)
     cfg_b = gen.gen_config(rng, nmax)
     cuts_b = {s["name"]: gen.gen_cuts(rng, s["rows"], t0, t1, scale) for s in srcs}
+    # capacity above the largest plugin lag: an exhaust plugin lags by the whole run, in whichever chunking the
+    # data reaches it (also the chunking under which a dependency was pre-stored)
+    need = max(len(c) for c in list(cuts_b.values()) + [s["cuts"] for s in srcs])
+    cfg["max_messages"] = max(cfg["max_messages"], 3 * need + 8)
     types = gen.all_types(spec)
     pre = rng.sample(types, rng.randint(0, min(3, len(types))))
     case = {"spec": spec, "cfg": cfg, "cfg_b": cfg_b, "cuts_b": cuts_b, "prestore": pre,
             "delete_p": rng.choice([0.0, 0.3, 0.6]), "delete_seed": rng.randint(0, 10 ** 6),
             "target": rng.choice(types), "scale": scale, "t0": t0, "t1": t1}
+    if fanout:
+        case["target"] = "toprow"
+        case["prestore"] = [x for x in pre if x in ("ev", "th")]
     return case
 
 
